@@ -18,7 +18,33 @@ fn ser_vec<T: CanonicalSerialize>(t: &T, c: Compress) -> Result<Vec<u8>, ark_ser
     Ok(v)
 }
 
+/// native mirror of the `r1.hist` wrapper history (same operation letters; see r1.rs)
+fn native_hist(mut v: Element, b: Element, ops: &str) -> String {
+    let mut reads = vec![];
+    for ch in ops.chars() {
+        match ch {
+            'c' => reads.push(format!("c:{}", fs(&v.vartime_compress_to_field()))),
+            'v' => reads.push(format!("v:{}", els(&v))),
+            'a' | 'A' | 'k' => v += b,
+            's' | 'S' | 'j' => v -= b,
+            'd' => { <Element as Group>::double_in_place(&mut v); }
+            'n' => v = -v,
+            'p' => v = v + b,
+            'm' => v = v - b,
+            _ => {}
+        }
+    }
+    if reads.is_empty() { "-".to_string() } else { reads.join(";") }
+}
+
 pub fn reg(m: &mut Map) {
+    opx!(m, "el.hist", (a: el, b: el, ops: tok), rs, native_hist(a, b, ops));
+    opx!(m, "el.hist.enc", (s: fq, b: el, ops: tok), rs, {
+        match Encoding(s.to_bytes()).vartime_decompress() {
+            Ok(a) => native_hist(a, b, ops),
+            Err(_) => "ERR".to_string(),
+        }
+    });
     // ------------------------------------------------------------ constants
     opx!(m, "el.const.GENERATOR", (), rel, Element::GENERATOR);
     opx!(m, "el.const.IDENTITY", (), rel, Element::IDENTITY);
